@@ -843,6 +843,8 @@ class Interp:
                 o.items[ii] = v
             elif isinstance(o, ObjV) and '__setitem__' in o.fields:
                 o.fields['__setitem__'].fn(self.path, [o, i, v], {})
+            elif isinstance(o, DictV) and isinstance(i, StrV) and i.value is not None:
+                o.items[i.value] = v
             else:
                 raise Unsupported('subscript store')
         else:
@@ -1152,6 +1154,10 @@ class Interp:
                 return IntV(bits.band(a.t, b.t), tag)
             if isinstance(op, ast.BitOr):
                 return IntV(bits.bor(a.t, b.t), tag)
+            if isinstance(op, ast.LShift) and z3.is_int_value(a.t) and a.t.as_long() == 1:
+                # 1 << e: the atom 2^e; python raises ValueError for a negative shift count
+                self.path.oblige('shift-nonneg', 'arith', b.t >= 0)
+                return IntV(bits.atomv(b.t), None)
             if isinstance(op, ast.RShift):
                 self.path.oblige('shift-nonneg', 'arith', b.t >= 0)
                 return IntV(bits.shr(a.t, b.t), a.tag)
@@ -1332,6 +1338,10 @@ class Interp:
             raise Unsupported('symbolic index into concrete sequence')
         if isinstance(o, ObjV) and '__getitem__' in o.fields:
             return self.call(o.fields['__getitem__'], [o, i], {})
+        if isinstance(o, DictV) and isinstance(i, StrV) and i.value is not None:
+            if i.value not in o.items:
+                raise PyRaise('KeyError')
+            return o.items[i.value]
         raise Unsupported('subscript of %s' % type(o).__name__)
 
     def call(self, f, args, kwargs):
